@@ -485,6 +485,15 @@ def generated_seeds():
         wb['workflows'][n] = _wf_body(wfgen.render(P[n]))
     seeds.append({'id': 'gen/workbook', 'kind': 'wb', 'text': render(wb),
                   'expect': 'accept', 'tasks': 8, 'origin': 'generator'})
+    wbs = {'version': '2.0', 'name': 'swb',
+           'actions': {'hello': {'base': 'std.echo output="<% $.n %>"',
+                                 'input': ['n']}},
+           'workflows': {
+               'first': _wf_body(wfgen.render(P['guard_true'])),
+               'second': _wf_body(wfgen.render(P['single']))}}
+    seeds.append({'id': 'gen/workbook_small', 'kind': 'wb',
+                  'text': render(wbs), 'expect': 'accept', 'tasks': 3,
+                  'origin': 'generator'})
     acts = {'version': '2.0',
             'greet': {'description': 'd', 'tags': ['x'],
                       'base': 'std.echo output="<% $.who %>"',
